@@ -124,6 +124,7 @@ def run(ctx):
     ctx.rule("C17.1", "error exits of WalReader::next_record are I/O errors only; every tail defect ends the log")
     ctx.rule("C17.2", "Wal::append position derives from the end of valid data (see C01.5)")
     ctx.rule("C17.3", "the record buffer allocated from the length field is bounded by a dominating upper-bound test")
+    ctx.rule("C17.4", "a short read (UnexpectedEof) in the log reader ends the log: its error arm tests the error kind and can return Ok(None)")
     b = ctx.body(NEXT)
     memo = {}
     exits = err_exits(F, b)
@@ -177,3 +178,29 @@ def run(ctx):
         ctx.instance("C17.3", "next_record: %s sized by local %s, %d dominating bound tests" % (c.name.split("::")[-1], size_l, len(guards)))
         ctx.oblige(ok, "C17.3", "next_record:unbounded-alloc#%d" % c.ordinal,
                    "the record buffer is allocated from an untrusted 32-bit length without a dominating upper-bound test", c.loc())
+
+    # clause 4: every read_exact of the reader distinguishes UnexpectedEof (truncated record) from real I/O errors
+    n4 = 0
+    for i, rb in sorted(F.bodies.items()):
+        if not i.startswith("nervusdb_storage::wal::WalReader::") or rb.kind == "closure":
+            continue
+        for c in rb.calls():
+            if not (c.declared == "std::io::Read::read_exact" or c.name.endswith("::read_exact")):
+                continue
+            n4 += 1
+            after = rb.reachable([c.target]) if c.target is not None else set()
+            kind_tests = [k for k in rb.calls() if k.bb in after and k.name.endswith("io::error::Error::kind")]
+            ok_none = False
+            for x in after:
+                for st in rb.blocks[x]["s"]:
+                    if st[0] == "a" and st[1][0] == 0 and st[2][0] == "agg" and st[2][3] == "Ok" and st[2][4]:
+                        l0 = op_local(st[2][4][0])
+                        o = rb.origin(l0) if l0 is not None else None
+                        if (o and o[0] == "agg" and o[1][3] == "None") or (st[2][4][0][0] == "k" and "None" in st[2][4][0][1].get("d", "")):
+                            ok_none = True
+                        if o and o[0] == "const" and "None" in o[1].get("d", ""):
+                            ok_none = True
+            ctx.instance("C17.4", "%s: read_exact#%d error arm tests kind=%s, can return Ok(None)=%s" % (i.split("::")[-1], c.ordinal, bool(kind_tests), ok_none))
+            ctx.oblige(bool(kind_tests) and ok_none, "C17.4", "%s:read_exact#%d:eof-not-end-of-log" % (i, c.ordinal),
+                       "a short read of a record header or body is not turned into end-of-log: a log truncated in the middle of a record makes open fail", c.loc())
+    ctx.floor("C17.4", "read_exact sites in WalReader", n4, 2)
